@@ -51,8 +51,15 @@ fn dyn_key(k: Key) -> MapKeyObjToObj {
   match k { Key::ObjDynU32(v) => via(v), Key::ObjDynI32(v) => via(v as i32), Key::ObjDynNew(v) => via(NewU(v)), _ => unreachable!() }
 }
 
-fn obj(v: u32) -> Box<dyn MapValueObj> { Box::new(v) }
-fn unobj(b: &Box<dyn MapValueObj>) -> Option<u32> { b.as_ref().as_any().downcast_ref::<u32>().copied() }
+/// Trait-object values: 0 and 1 are boxed numbers, 2 and 3 are boxed *zero-sized* values of two different types (all
+/// boxed zero-sized values share one dangling address; only their type tells them apart).
+#[derive(Clone, Debug, PartialEq, Eq)]
+pub struct Disabled;
+fn obj(v: u32) -> Box<dyn MapValueObj> { match v { 2 => Box::new(Disabled), 3 => Box::new(()), _ => Box::new(v) } }
+fn unobj(b: &Box<dyn MapValueObj>) -> Option<u32> {
+  let any = b.as_ref().as_any();
+  if any.downcast_ref::<Disabled>().is_some() { Some(2) } else if any.downcast_ref::<()>().is_some() { Some(3) } else { any.downcast_ref::<u32>().copied() }
+}
 
 #[derive(Clone, Copy, Debug)]
 pub enum MOp {
@@ -365,7 +372,7 @@ pub fn run(tier: &str, seed: u64, replay: Option<u64>) -> Report {
   if let Some(c) = replay { one_case(seed, c, n_ops, &mut total); return total; }
   let parts = util::parallel(n, if tier == "miri" { 1 } else { util::threads() }, 32, Report::new, |i, rep: &mut Report| { one_case(seed, i, n_ops, rep); rep.alarm_total < 20 });
   for p in parts { total.merge(p); }
-  total.rule = "Random sequences of 120 operations per case over one Pie instance: map operations (insert/remove through the resource state's global map; insert, entry().or_insert, get_mut through MapWriter; reads through Resource::read, the global map and MapWriter::get; MapEqualsChecker stamped through all three routes, then mutated, then checked) over seven key kinds with equal bits (K1(u32), K2(u32), K3(i32)->String, MapKeyToObj<u32>, MapKeyObjToObj holding u32 / i32 / a newtype, every access building the key through the next of its four construction routes: from(k), new(Box<dyn KeyObj>), Box<K>.into(), Box<dyn KeyObj>.into()), a build leg (a task reading K1(v), K2(v) and writing K1(v+10) through the Context: correct value, not re-executed when only a same-numbered key of another key type changes, re-executed once when its own key changes, own write read back) and typed-state operations (all 8 ResourceState methods with matching and non-matching state type) on two resource types that both store the same Rust types. Model = one HashMap per key kind / one slot per resource type. non-trivial = case that ended with >= 3 live keys.".into();
+  total.rule = "Random sequences of 120 operations per case over one Pie instance: map operations (insert/remove through the resource state's global map; insert, entry().or_insert, get_mut through MapWriter; reads through Resource::read, the global map and MapWriter::get; MapEqualsChecker stamped through all three routes, then mutated, then checked) over seven key kinds with equal bits (K1(u32), K2(u32), K3(i32)->String, MapKeyToObj<u32>, MapKeyObjToObj holding u32 / i32 / a newtype; the trait-object maps hold boxed numbers and boxed zero-sized values of two different types; every access building the key through the next of its four construction routes: from(k), new(Box<dyn KeyObj>), Box<K>.into(), Box<dyn KeyObj>.into()), a build leg (a task reading K1(v), K2(v) and writing K1(v+10) through the Context: correct value, not re-executed when only a same-numbered key of another key type changes, re-executed once when its own key changes, own write read back) and typed-state operations (all 8 ResourceState methods with matching and non-matching state type) on two resource types that both store the same Rust types. Model = one HashMap per key kind / one slot per resource type. non-trivial = case that ended with >= 3 live keys.".into();
   total.floor("map operations ran", total.get("map_operations") > 100);
   total.floor("typed state operations ran", total.get("typed_state_operations") > 50);
   total.floor("build legs ran", total.get("map_build_legs") > 5);
